@@ -4,7 +4,7 @@
 use crate::util::*;
 use lyon_path::geom::euclid::default::Box2D;
 use lyon_path::math::{point, vector, Angle, Point};
-use lyon_path::{Path, Polygon, Winding};
+use lyon_path::{LineCap, LineJoin, Path, Polygon, Winding};
 use lyon_tessellation::geometry_builder::{BuffersBuilder, MaxIndex, VertexBuffers};
 use lyon_tessellation::{
     FillGeometryBuilder, FillOptions, FillTessellator, FillVertex, GeometryBuilder,
@@ -213,8 +213,29 @@ pub fn run_stroke(
             }
         }
         Entry::Builder | Entry::BuilderWithAttributes => {
+            // every other program reaches its join / caps / miter limit through the builder's setters,
+            // starting from a builder created with different ones
+            let via_setters = (spec.subs.len() + spec.subs.iter().map(|s| s.segs.len()).sum::<usize>()) % 2 == 1;
+            let mut other = *options;
+            if via_setters {
+                other.line_join = if options.line_join == LineJoin::Round { LineJoin::Miter } else { LineJoin::Round };
+                other.start_cap = if options.start_cap == LineCap::Square { LineCap::Butt } else { LineCap::Square };
+                other.end_cap = if options.end_cap == LineCap::Round { LineCap::Butt } else { LineCap::Round };
+                other.miter_limit = options.miter_limit + 3.0;
+            }
+            macro_rules! apply_setters {
+                ($b:expr) => {
+                    if via_setters {
+                        $b.set_line_join(options.line_join);
+                        $b.set_start_cap(options.start_cap);
+                        $b.set_end_cap(options.end_cap);
+                        $b.set_miter_limit(options.miter_limit);
+                    }
+                };
+            }
             if spec.n_attr == 0 && entry == Entry::Builder {
-                let mut b = tess.builder(options, out);
+                let mut b = tess.builder(&other, out);
+                apply_setters!(b.inner_mut());
                 for s in &spec.subs {
                     b.begin(s.start);
                     for g in &s.segs {
@@ -234,7 +255,8 @@ pub fn run_stroke(
                 }
                 b.build()
             } else {
-                let mut b = tess.builder_with_attributes(spec.n_attr, options, out);
+                let mut b = tess.builder_with_attributes(spec.n_attr, &other, out);
+                apply_setters!(b);
                 spec.replay(&mut b);
                 b.build()
             }
